@@ -110,10 +110,11 @@ class Endpoint(object):
     def snapshot(self):
         h = self.h
         pq = len(self.sources('idle', '_process_queue'))
+        txsrc = len([s for s in self.sources() if s.func.__name__ in ('_avail_tx_notls', '_avail_tx_tls')])
         ka = [s.deadline for s in self.sources('timeout', '_keepalive_timeout')]
         idle = [s.deadline for s in self.sources('timeout', '_idle_timeout')]
         return {'closed': self.sock.closed, 'state': str(h._state), 'txbuf': h.send_buffer_used(),
-                'rxbuf': h.recv_buffer_used(), 'pq': pq, 'ka': ka[0] if ka else None,
+                'rxbuf': h.recv_buffer_used(), 'pq': pq, 'txsrc': txsrc, 'ka': ka[0] if ka else None,
                 'idle': idle[0] if idle else None, 'seg': h._send_segment_size or 0}
 
     def _collect(self, esc=None, raised=None, ret=None):
@@ -308,6 +309,8 @@ class Sim(object):
         elif k == 'pump':
             c = rng.random()
             n = 1 if c < 0.1 else (rng.choice([2, 3, 5, 17, 100]) if c < 0.4 else CHUNK)
+            if c > 0.94:
+                n = 0       # back-pressure: the callback came from the idle source and the socket is not writable
             self.pump(ep, n)
         elif k == 'rx':
             c = rng.random()
@@ -356,7 +359,7 @@ def canon_model_out(entry):
     return {'sigs': sigs, 'wire': wire, 'closed': closed, 'escaped': esc, 'raised': raised, 'ret': ret, 'snap': entry['snap']}
 
 
-SNAP_KEYS = ('closed', 'state', 'txbuf', 'rxbuf', 'pq')
+SNAP_KEYS = ('closed', 'state', 'txbuf', 'rxbuf', 'pq', 'txsrc')
 
 
 def diff_trace(ep, model_trace, with_timers=False, project=None):
@@ -370,7 +373,8 @@ def diff_trace(ep, model_trace, with_timers=False, project=None):
         sb = {k: mo['snap'][k] for k in keys}
         if sa.get('closed') and sb.get('closed'):
             # what a closed endpoint still holds in its receive buffer is not observable
-            for k in ('rxbuf', 'seg'):
+            # … nor are TX sources left behind by a closed connection (their callback does nothing)
+            for k in ('rxbuf', 'seg', 'txsrc'):
                 sa.pop(k, None)
                 sb.pop(k, None)
         if project:
